@@ -70,3 +70,23 @@ Definition mcheck (tol : Q) (c : mcase) : bool * Z :=
       (fst r && list_nat_eqb s (mc_ishape c) && (if mc_concl c then mconcl c m else true), snd r)
   | _, _ => (false, 1%Z)
   end.
+
+(** ** the refusal guard alone.  [guard_model c] is the model's decision (true = ValueError) for a pulse /
+    constructor call: [rejected] on the helper arguments the function forms from its proportion parameters --
+    the term C06_rejection_characterised, C06_constructor_rejection_characterised and C06_simplex_accepted are
+    about.  [mcheck_guard] decides a case whose values are not compared (mc_valcmp = false) from that term only,
+    without evaluating the density (the guard stream of harness/props/c06.py carries no density for such
+    cases); with values to compare it is [mcheck].  Equal to [mcheck] on every case: Proofs/PhiManipMisc.v,
+    mcheck_guard_is_mcheck. *)
+Definition guard_model (c : mcase) : option bool :=
+  match mc_op c with
+  | OpPulse i => Some (rejected (desc_args (nth i pulse_table no_desc) (z2D (mc_ps c))))
+  | OpCons i => Some (rejected (desc_args (nth i cons_table no_desc) (z2D (mc_ps c))))
+  | _ => None
+  end.
+Definition mcheck_guard (tol : Q) (c : mcase) : bool * Z :=
+  if mc_valcmp c then mcheck tol c else
+  match guard_model c with
+  | Some rej => if Bool.eqb rej (mc_raised c) then (true, (-10000)%Z) else (false, 1%Z)
+  | None => mcheck tol c
+  end.
